@@ -60,6 +60,29 @@ def gen_case(g):
         idx = rng.randrange(len(names))
         form = rng.choice(["name", "index", "poly", "indeterminant", "variable"])
         dvars.append({"form": form, "name": names[idx], "index": idx})
+    if fn == "derivative" and rng.random() < 0.12:
+        # high order in one call: the product of the exponents brought down passes 2**32
+        hnames = rng.choice([["q0"], ["q0", "q1"], ["q1", "q2"]])
+        shape = rng.choice([(), (2,)])
+        degs = [rng.randint(12, 18) for _ in hnames]
+        rows = [list(degs), [max(d - rng.randint(0, 3), 0) for d in degs], [0] * len(hnames)]
+        rows = [list(r) for r in {tuple(r) for r in rows}]
+        hkind = rng.choice(["int", "float"])
+        pool = [1, 2, -1, 3] if hkind == "int" else [0.5, 1.0, -2.0, 1.5]
+        coefs = [G.nested_map(lambda v: rng.choice(pool), g.array_data(shape, "int", zero_prob=0.0))
+                 for _ in rows]
+        poly = {"k": "poly", "names": hnames, "exps": rows, "coefs": G.nested_map(G.jnum, coefs),
+                "kind": hkind, "shape": list(shape), "via": "attrs"}
+        if len(hnames) == 1:
+            dvars = [{"form": rng.choice(["name", "index"]), "name": hnames[0], "index": 0}
+                     for _ in range(rng.randint(9, 12))]
+        else:
+            dvars = []
+            for idx, name in enumerate(hnames):
+                dvars += [{"form": rng.choice(["name", "index"]), "name": name, "index": idx}
+                          for _ in range(rng.randint(5, 7))]
+            rng.shuffle(dvars)
+        poly["highorder"] = True
     case = {"fn": fn, "poly": poly, "vars": dvars, "options": rng.choice(SETTINGS)}
     if fn == "rules":
         case["other"] = g.poly(shape=g.compatible_shape(tuple(poly["shape"])), names=names,
@@ -113,6 +136,9 @@ def run_case(case, ctx):
             ctx.evaluated((fn, forms, optsig, tuple(spec["shape"]), spec["kind"],
                            len(spec["exps"]) > 1), depends)
             ctx.count("derivative")
+            if spec.get("highorder"):
+                ctx.count("derivative_high_order")
+                facts["high_order"] = True
             expected = model_derivative(pm, dnames)
             with numpoly.global_options(**options):
                 args = [designate(numpoly, v, poly) for v in case["vars"]]
